@@ -111,6 +111,17 @@ CHECKS = {
    design_ref="DESIGN.md section 4 C10",
    note="fault positions are exhaustive for the corpus documents (<= 90 bytes), two chunkings, four error kinds; " + TRUST,
    technique="fault enumeration decided by TLC trace validation against ReaderInput.tla (model-checked with TLC)"),
+ "C08": dict(
+   category="model_checking",
+   text="Bounds.tla gives closed forms for what alias replay costs (replayed events, nodes delivered) and which alias limit must "
+        "stop a parse first; TLC checks the LiveEvents pump against them on every small document under tightened limits (and that "
+        "replay never nests, so the stack limit is exact); recorded parses of random aliased documents under 12 limit vectors are "
+        "decided from their raw events by the TLA+ trace validator, and attack families over a parameter grid are observed through "
+        "a node-counting target and a counting allocator against the closed forms and a fixed heap bound.",
+   design_ref="DESIGN.md section 4 C08",
+   note="counters: model_checking; peak heap: a measurement bounded by the specification's constant (exploration-level); known finding "
+        "C08-nested-anchor-recording is suppressed only for the `nested` family's heap verdict; " + TRUST,
+   technique="TLA+ model (LiveEvents.tla + Bounds.tla) checked by TLC + TLC trace validation of limit outcomes and observer counts"),
 }
 
 NOT_YET = "check not built yet (work in progress); it will be claimed once its TLA+ model and conformance harness are registered"
